@@ -19,7 +19,9 @@ PID = "C08"
 SIGMA = ["a", " ", '"', ";", "=", "-", ">", "\\", "%", "2", "é", "́", "😀"]
 FIXED = ["Type=dir;", "a -> b", "->", "250 x", "250-x", '""', 'a""b', '"a', 'a"', " a", " a", "-rw-r--r--", "%s",
          "a;b=c", "...", "  a", 'a"""b', "Size=5;x", "total 0", "a\tb", "d", "-", "226 done", "1 2 3 4 5 6 7 8 9",
-         "a; b", "; x", "x; Type=dir; y", "a ;b", "a= b", "a;", "a -> b -> c", "Jan 15 12:30 x", "a\\ b", "a  b"]
+         "a; b", "; x", "x; Type=dir; y", "a ;b", "a= b", "a;", "a -> b -> c", "Jan 15 12:30 x", "a\\ b", "a  b",
+         # names a shell, a home-directory convention or a glob would read something into
+         "~", "~x", "~root", "x~", "$HOME", "%HOME%", "*", "?", "[a]", "{a,b}", "`x`", "$(x)", "!", "#x", "&", "a|b", "a>b"]
 DATA = b"payload-\xff\x00-end"
 
 
